@@ -15,7 +15,7 @@ LEVEL = "exploration"
 RULE = ("keys of every type/size/curve (EC leading-zero strata forced) x 8 representations x optional members (kid, use, alg, key_ops, "
         "x5t) x shuffled member order x digest sha256/384/512; thumbprint() vs the by-hand RFC 7638 value of the key numbers, equal for "
         "private/public form and all representations; ensure_kid / KeySet / generate_key(auto_kid) kid == thumbprint, explicit kid kept, "
-        "stable over repeated calls and exports. Non-trivial: a thumbprint or kid was computed and compared; distinct by (material, "
+        "stable over repeated calls and exports and over caller-side modification of exported dicts; auto kid under sha384/512 key classes. Non-trivial: a thumbprint or kid was computed and compared; distinct by (material, "
         "representation, extras).")
 ASSUMPTIONS = ["the by-hand RFC 7638 computation in refjose.keys (required members in canonical encodings from the key numbers, lexicographic, "
                "no whitespace, SHA-2, unpadded base64url) is right; it reproduces the RFC 8037 A.3 thumbprint vector"]
@@ -57,6 +57,12 @@ def check_key(ctx, jwk, rep, extra, rng):
         want = ref.thumbprint(digest)
         if t.value != want:
             ctx.violation("thumbprint-differs-from-rfc7638", f"thumbprint() = {t.value!r}, RFC 7638 ({digest}) of the key numbers = {want!r} [{rep}, extra {extra}]", case)
+        if digest != "sha256" and (extra or {}).get("kid") is None:
+            # the automatically assigned kid is the thumbprint under the digest the key class selects
+            call(k.ensure_kid)
+            ctx.count("kids_other_digest")
+            if k.kid != want:
+                ctx.violation("auto-kid-not-thumbprint", f"key class selecting {digest}: auto kid {k.kid!r} != its RFC 7638 thumbprint {want!r}", case)
     # kid assignment
     explicit = (extra or {}).get("kid")
     before = key.kid
@@ -82,6 +88,24 @@ def check_key(ctx, jwk, rep, extra, rng):
             d = e.value if "keys" not in e.value else e.value["keys"][0]
             if d.get("kid") != kid1:
                 ctx.violation("kid-not-in-export", f"export carries kid {d.get('kid')!r}, key.kid is {kid1!r}", case)
+    # exports belong to the caller: whatever is done to them, the key keeps its kid, thumbprint and material
+    snap = call(key.as_dict)
+    snap = copy.deepcopy(snap.value) if snap.ok else None
+    for e in exports + [call(key.as_dict, private=True) if is_private else call(key.as_dict), call(key.as_dict, kid2="x")]:
+        if e.ok and isinstance(e.value, dict):
+            tgt = e.value if "keys" not in e.value else e.value["keys"][0]
+            tgt["kid"] = "scribbled"
+            for m in ("x", "n", "k", "d", "crv"):
+                tgt.pop(m, None)
+    ctx.count("exports_scribbled")
+    t2 = call(key.thumbprint)
+    if key.kid != kid1:
+        ctx.violation("kid-changed-through-export", f"kid changed from {kid1!r} to {key.kid!r} after the caller modified exported dicts", case)
+    if not t2.ok or t2.value != ref.thumbprint():
+        ctx.violation("thumbprint-changed-through-export", f"thumbprint is {t2.value if t2.ok else t2!r} after the caller modified exported dicts, was {ref.thumbprint()!r}", case)
+    again = call(key.as_dict)
+    if snap is not None and (not again.ok or again.value != snap):
+        ctx.violation("export-changed-through-export", f"as_dict() differs after the caller modified earlier exports: {str(again.value if again.ok else again)[:160]}", case)
     # public form of the same key
     if jwk["kty"] != "oct":
         pub = call(j.JWKRegistry.import_key, key.as_dict(private=False))
